@@ -2,6 +2,7 @@ import P2PVerif.Model.DHT
 import P2PVerif.Lemmas.DHT
 import P2PVerif.Model.DHTNode
 import P2PVerif.Lemmas.DHTNode
+import P2PVerif.Lemmas.SrcIter
 /-! # C20 — iterative DHT operations are bounded, non-redundant and report truthfully
 Property theorems only, about the model of p/kademlia/dht.go in `Model/DHT.lean`. The remote side is an
 arbitrary responder `Nat → NodeInfo → Resp` (call index first), so cyclic, self-referential, fabricated,
@@ -132,5 +133,75 @@ example :
     let D : NodeInfo := ⟨[9], []⟩
     let ask : Responder := fun _ n => if n.id = [8] then ⟨true, [B, C], true, none⟩ else if n.id = [2] then ⟨true, [B], true, none⟩ else ⟨true, [], true, none⟩
     (put 10 [A, D] [0] ask).map (fun st => (st.asked.reverse, st.accepted)) = some ([[8], [1], [2], [9]], 4) := by decide
+
+/-! ## the regenerated `dhtIterate`
+
+`Src.kademlia.dhtIterate` is the definition `harness/cmd/go2lean` produces from p/kademlia/dht.go on every run (with
+`pop`, `contains`, the `seen` map and `slices.SortFunc`); the caller's callback is an arbitrary pure function of a
+state it threads (`σ`), the node it is called with, returning the new state, the peers it learnt and whether to go
+on. `srcRec g` is `g` made to record (ghost) the ids it is called with, most recent first. -/
+
+/-- `g`, recording the ids it is called with -/
+def srcRec {σ : Type} (g : σ → Src.kademlia.NodeInfoT → σ × List Src.kademlia.NodeInfoT × Bool) :
+    σ × List Go.Bytes → Src.kademlia.NodeInfoT → (σ × List Go.Bytes) × List Src.kademlia.NodeInfoT × Bool :=
+  fun s x => ((( g s.1 x).1, x.ID :: s.2), (g s.1 x).2.1, (g s.1 x).2.2)
+
+/-- ⊢ regenerated, non-redundant: whatever the callback answers (cyclic, self-referential, fabricated, enormous
+    peer lists are all inside `g`), `dhtIterate` as regenerated from the source never passes the same id to the
+    callback twice, and it ends without a run-time panic other than the documented one for a candidate limit
+    below 1 (the model's loop fuel of 2^64+1 rounds aside). -/
+theorem src_iterate_contacts_nodup {σ : Type} (key : Go.Bytes) (n : Int)
+    (g : σ → Src.kademlia.NodeInfoT → σ × List Src.kademlia.NodeInfoT × Bool)
+    (nodes : List Src.kademlia.NodeInfoT) (st0 : σ) :
+    Src.kademlia.dhtIterate nodes key n (fun s x => pure (srcRec g s x)) (st0, []) = .error .fuel ∨
+    (nodes ≠ [] ∧ n < 1 ∧
+      Src.kademlia.dhtIterate nodes key n (fun s x => pure (srcRec g s x)) (st0, []) = .error (.panic "panic")) ∨
+    ∃ st tr, Src.kademlia.dhtIterate nodes key n (fun s x => pure (srcRec g s x)) (st0, []) = .ok (st, tr) ∧ tr.Nodup := by
+  rcases Src.dhtIterate_inv key n (srcRec g) (fun _ => True) (fun seen s => s.2 = seen ∧ seen.Nodup)
+      (by
+        intro seen s node hR _ hnot
+        refine ⟨⟨?_, ?_⟩, fun _ _ => trivial⟩
+        · simp only [srcRec]; rw [hR.1]
+        · exact List.nodup_cons.2 ⟨hnot, hR.2⟩)
+      nodes (fun _ _ => trivial) (st0, []) ⟨rfl, List.nodup_nil⟩ with h | h | ⟨st, h, seen, hs, hn⟩
+  · exact .inl h
+  · exact .inr (.inl h)
+  · exact .inr (.inr ⟨st.1, st.2, h, hs ▸ hn⟩)
+
+/-- ⊢ regenerated, only mentioned nodes: every id the regenerated `dhtIterate` passes to the callback is the id of
+    an initial peer or of a peer some earlier answer of the callback listed. -/
+theorem src_iterate_contacts_mentioned {σ : Type} (key : Go.Bytes) (n : Int)
+    (g : σ → Src.kademlia.NodeInfoT → σ × List Src.kademlia.NodeInfoT × Bool)
+    (nodes : List Src.kademlia.NodeInfoT) (st0 : σ) (st : σ) (tr : List Go.Bytes)
+    (h : Src.kademlia.dhtIterate nodes key n (fun s x => pure (srcRec g s x)) (st0, []) = .ok (st, tr)) :
+    ∀ id ∈ tr, (∃ x ∈ nodes, x.ID = id) ∨ ∃ s y, ∃ x ∈ (g s y).2.1, x.ID = id := by
+  let P : Src.kademlia.NodeInfoT → Prop := fun x => x ∈ nodes ∨ ∃ s y, x ∈ (g s y).2.1
+  rcases Src.dhtIterate_inv key n (srcRec g) P (fun _ s => ∀ id ∈ s.2, ∃ x, P x ∧ x.ID = id)
+      (by
+        intro seen s node hR hPn _
+        refine ⟨?_, fun x hx => .inr ⟨s.1, node, hx⟩⟩
+        intro id hid
+        simp only [srcRec, List.mem_cons] at hid
+        rcases hid with hid | hid
+        · exact ⟨node, hPn, hid.symm⟩
+        · exact hR id hid)
+      nodes (fun x hx => .inl hx) (st0, []) (by intro id hid; simp at hid) with h' | h' | ⟨st', h', _, hR⟩
+  · rw [h] at h'; cases h'
+  · rw [h] at h'; cases h'.2.2
+  · rw [h] at h'
+    cases h'
+    intro id hid
+    obtain ⟨x, hx, hxid⟩ := hR id hid
+    rcases hx with hx | ⟨s, y, hx⟩
+    · exact .inl ⟨x, hx, hxid⟩
+    · exact .inr ⟨s, y, x, hx, hxid⟩
+
+-- non-vacuity: a concrete run of the regenerated function (A lists B and C; B and C list A back; all ids differ)
+example :
+    let mk : UInt8 → Src.kademlia.NodeInfoT := fun b => { ID := b :: List.replicate 31 0, Info := [] }
+    let g : Unit → Src.kademlia.NodeInfoT → Unit × List Src.kademlia.NodeInfoT × Bool := fun _ x =>
+      ((), (if x.ID.head? = some 8 then [mk 1, mk 2] else [mk 8]), true)
+    (Src.kademlia.dhtIterate [mk 8] (List.replicate 32 0) 3 (fun s x => pure (srcRec g s x)) ((), [])).toOption.map
+      (fun r => r.2.reverse.map (·.head?)) = some [some 8, some 1, some 2] := by decide
 
 end P2PVerif.C20
